@@ -57,7 +57,7 @@ def _find_year_caches(calc):
         except TypeError:
             continue
         for k, v in items:
-            if isinstance(v, dict) and len(v) == 1024 and id(v) not in seen and "ache" in k:
+            if isinstance(v, dict) and len(v) == 1024 and id(v) not in seen and "cache" in k.lower():
                 seen.add(id(v))
                 found.append(v)
     return found
@@ -775,7 +775,10 @@ def H_current_culture():
 
 def _harness_table(tier):
     hs = []
-    for cid in ("ISO", "Julian", "Coptic", "Hijri Civil-Base15", "Persian Simple", "Hebrew Civil", "Hebrew Scriptural", "Badi"):
+    years_cals = ("ISO", "Hijri Civil-Base15", "Hebrew Civil", "Hebrew Scriptural", "Badi")
+    if tier != "quick":
+        years_cals += ("Julian", "Coptic", "Persian Simple", "Persian Algorithmic", "Um Al Qura")
+    for cid in years_cals:
         hs.append(("H1-years:%s" % cid, lambda cid=cid: H_years(cid)))
     for zid in ("Europe/London", "Europe/Vienna"):
         hs.append(("H3-zonecache:%s" % zid, lambda zid=zid: H_zonecache(zid)))
@@ -808,7 +811,7 @@ def _run_harness(idx):
             acc.degrade("harness %s could not be built (%s: %s)" % (name, type(e).__name__, str(e)[:80]))
         return acc
     # choose what is affordable: cost of a plan ~ executions x points; executions ~ P (bound 1) or P^2/2 (bound 2)
-    budget = 120_000 if tier == "quick" else 2_500_000
+    budget = 24_000 if tier == "quick" else 2_500_000
     plans = []
     for opcodes in (True, False):
         try:
@@ -863,27 +866,41 @@ def run(ctx):
         for acc in pmap(_run_harness, idx):
             ctx.merge_part("schedules", acc)
         return
+    import time as _t
+    t0 = _t.time()
+    phase = {}
+
+    def mark(name):
+        nonlocal t0
+        phase[name] = round(_t.time() - t0, 1)
+        t0 = _t.time()
     ydepth = 3 if tier == "quick" else 4
     jobs = [(cid, ydepth, ctx.seed, b) for cid in CalendarSystem.ids for b in (False, True)]
     for acc in pmap(_years_histories, jobs):
         ctx.merge_part("hist_year_caches", acc)
+    mark("hist_year_caches")
     zdepth = 3 if tier == "quick" else 4
     zjobs = [(z, zdepth, 12 if tier == "quick" else 14) for z in ("Europe/London", "Europe/Vienna", "Pacific/Apia", "Asia/Gaza", "America/Sao_Paulo", "Australia/Lord_Howe")]
     for acc in pmap(_zones_histories, zjobs):
         ctx.merge_part("hist_zone_cache", acc)
+    mark("hist_zone_cache")
     for acc in pmap(_cache_histories, [(2, 5 if tier == "quick" else 7), (3, 5 if tier == "quick" else 7)]):
         ctx.merge_part("hist_lru_cache", acc)
     acc = Acc()
     _format_info_history(acc)
     ctx.merge_part("hist_format_info", acc)
+    mark("hist_lru_and_format_info")
     ctx.merge_part("hist_provider", _provider_histories(3 if tier == "quick" else 4))
     acc = Acc()
     _calendar_histories(acc)
     ctx.merge_part("hist_calendars", acc)
+    mark("hist_provider_calendars")
     _HCFG["tier"] = tier
     n = len(_harness_table(tier))
     for acc in pmap(_run_harness, range(n)):
         ctx.merge_part("schedules", acc)
+    mark("schedules")
+    ctx.note("phase_wall_s", phase)
     ctx.exhaustive = not ctx.caps
 
 
